@@ -123,6 +123,14 @@ func callReader(name string, data []byte, scratch string) {
 		astisub.ReadFromTeletext(r, astisub.TeletextOptions{Page: 888})
 	case name == "ts-pid":
 		astisub.ReadFromTeletext(r, astisub.TeletextOptions{PID: 256, Page: 100})
+	case strings.HasPrefix(name, "ts-opt:"):
+		// "ts-opt:<page>:<pid>": every option value is an input too
+		var page, pid int
+		fmt.Sscanf(strings.TrimPrefix(name, "ts-opt:"), "%d:%d", &page, &pid)
+		astisub.ReadFromTeletext(r, astisub.TeletextOptions{Page: page, PID: pid})
+	case name == "ssa-callbacks":
+		n := 0
+		astisub.ReadFromSSAWithOptions(r, astisub.SSAOptions{OnUnknownSectionName: func(string) { n++ }, OnInvalidLine: func(string) { n++ }})
 	case strings.HasPrefix(name, "open:"):
 		p := filepath.Join(scratch, fmt.Sprintf("c08-%d%s", os.Getpid(), strings.TrimPrefix(name, "open:")))
 		os.WriteFile(p, data, 0o644)
@@ -494,6 +502,26 @@ func instrRun(c *core.Ctx) {
 			data := scaled(f, 1<<k)
 			for _, rd := range readersFor(f) {
 				do("scaled."+f, ReadCase{rd, data, fmt.Sprintf("%d cues", 1<<k)})
+			}
+		}
+	}
+	// option values: every page / PID option on every sample stream; SSA callbacks given
+	optPages := []int{-1 << 31, -100, -1, 0, 1, 99, 100, 101, 199, 800, 888, 899, 900, 999, 1000, 65535, 1<<31 - 1}
+	optPIDs := []int{-256, -1, 0, 1, 31, 256, 257, 8191, 8192, 65535, 65536}
+	for _, d := range corpus.Small() {
+		switch d.Format {
+		case "ts":
+			for _, pg := range optPages {
+				for _, pid := range optPIDs {
+					if c.Mine() {
+						do("options.ts", ReadCase{fmt.Sprintf("ts-opt:%d:%d", pg, pid), d.Data, d.Name})
+					}
+				}
+			}
+		case "ssa":
+			if c.Mine() {
+				do("options.ssa", ReadCase{"ssa-callbacks", d.Data, d.Name})
+				do("options.ssa", ReadCase{"ssa-callbacks", append(append([]byte{}, d.Data...), []byte("\n[Fonts]\nx\n[Events]\nnot a line\n")...), d.Name + "+junk"})
 			}
 		}
 	}
@@ -1018,7 +1046,7 @@ func init() {
 		ID: "C08", Level: "exploration",
 		Rule: "readers: three exhaustively enumerated input families fed to the reader of their format (and across formats, and through the extension-dispatching opener): (1) all words of length <=L over a per-format alphabet of 12-13 lexemes, (2) the full single-mutation ball around every corpus document (every prefix, every single-byte deletion, every single-byte replacement by each of 12 bytes, every line-boundary splice of two same-format documents), (3) structured binary variations (STL GSI fields, DFC/DSC/CCT strings, every byte value at TTI text positions and header bytes, diacritic-led byte pairs; TS families contributed by the teletext encoder); writers: a nil-lattice of the public types explored within B deviations (every optional pointer/map independently present, nil or odd; 11 text atoms; 5 time atoms) to all five writers (TTML x 3 indents). Oracle: no panic (recover at the public entry point; a panic inside the third-party demuxer is excluded) and steps executed in package astisub <= 50000 + 400*len(input) (statement-level step counter of the instrumented build; no wall-clock oracle), also on scaled inputs of 2^k cues; distinct = (reader, input bytes) / (writer, lattice point)",
 		Scope: map[core.Tier]string{
-			core.Quick:    "token words L<=5 (cross-format L<=3); mutation ball around all corpus documents; STL structured families; scaled inputs up to 4096 cues and, inside one cue, up to 4096 lines / tagged runs / header lines; writer lattice B=2; plain lists of 255..100001 cues (12 counts around digit-count and power-of-two boundaries) to every writer",
+			core.Quick:    "token words L<=5 (cross-format L<=3); mutation ball around all corpus documents; STL structured families; scaled inputs up to 4096 cues and, inside one cue, up to 4096 lines / tagged runs / header lines; teletext page x PID option values (17 x 11) on every sample stream; writer lattice B=2; plain lists of 255..100001 cues (12 counts around digit-count and power-of-two boundaries) to every writer",
 			core.Thorough: "token words L<=6 (cross-format L<=4); writer lattice B=3; plain lists up to 1000000 cues",
 		},
 		Assumptions: []string{"Go toolchain and standard library", "steps inside dependencies (bufio, encoding/xml, x/net/html, astits) are not counted: their loops are bounded by the input length", "instrumented build = plain build with inert hooks (validated in setup)"},
